@@ -141,7 +141,7 @@ def build(tier):
     P.contract(ST + "SegmentTree.__setitem__",
                params={"self": "obj:Tree", "idx": "int", "val": "real"},
                requires=["WF(self)", "0 <= idx", "idx < self.capacity"],
-               ghost_entry=["use(reveal_wf(self))"], ghost_exit=["use(reveal_wf(self))"],
+               ghost_entry=["use(reveal_wf(self))"], ghost_exit=["use(reveal_wf(self))"], axioms=[T.leaf_axiom()],
                modifies=["self.tree"],
                loops={0: dict(invariant=["0 <= idx", "idx < self.capacity", "len(self.tree) == 2 * self.capacity",
                                          "WF_except(self, idx)",
@@ -154,7 +154,7 @@ def build(tier):
     # ---------------------------------------------------------------- SegmentTree.__getitem__
     P.contract(ST + "SegmentTree.__getitem__",
                params={"self": "obj:Tree", "idx": "int"},
-               requires=["WF(self)"],
+               requires=["WF(self)"], axioms=[T.leaf_axiom()],
                raises={"AssertionError": "not (0 <= idx and idx < self.capacity)"}, raises_iff=True,
                ensures=["result == self.tree[self.capacity + idx]", "result == tleaf(self, idx)"], result="real",
                witness={"self.capacity": 2, "self.tree": [0, 3, 1, 2], "idx": 1, "self.operation": op_is_add, "fact:wf": "reveal_wf(self)"})
@@ -204,11 +204,17 @@ def all_leaves(t, v):
     return z3.ForAll([j], z3.Implies(z3.And(0 <= j, j < 2 * cap), tr.arr[j] == v))
 
 
+def all_leaves_L(t, v):
+    cap, tr = t.fields["capacity"], t.fields["tree"]
+    j = z3.Int("j!aL")
+    return z3.ForAll([j], z3.Implies(z3.And(0 <= j, j < cap), T.LEAF(tr.arr, cap, j) == v), patterns=[T.LEAF(tr.arr, cap, j)])
+
+
 POW = z3.Function("pow", z3.RealSort(), z3.RealSort(), z3.RealSort())
 
 
 def more(P):
-    P.specns.update(dict(Fold=Fold, node_fold=node_fold, add_fold=add_fold, all_leaves=all_leaves, tleaf=tleaf, pow=POW, unfold_sum=unfold_sum, unfold_min=unfold_min))
+    P.specns.update(dict(Fold=Fold, node_fold=node_fold, add_fold=add_fold, all_leaves=all_leaves, all_leaves_L=all_leaves_L, leaf_def=T.leaf_axiom, tleaf=tleaf, pow=POW, unfold_sum=unfold_sum, unfold_min=unfold_min))
     P.axioms += lib.pow_axioms(POW)
     e_ = z3.Real("e!one")
     P.axioms += [T.INF > 1, z3.ForAll([e_], POW(1, e_) == 1, patterns=[POW(1, e_)])]
@@ -271,7 +277,7 @@ def more(P):
                ensures=["0 <= result", "result < self.capacity",
                         "Fsum(self, 0, result) <= old(upperbound)", "old(upperbound) < Fsum(self, 0, result + 1)"],
                witness={**W4, "upperbound": 0.5, "fact:1": "unfold_sum(self, 0, 2)", "fact:2": "unfold_sum(self, 0, 1)",
-                        "fact:3": "unfold_sum(self, 0, 0)"},
+                        "fact:3": "unfold_sum(self, 0, 0)", "fact:4": "leaf_def()"},
                replay="c11:retrieve")
     # constructors establish WF
     for cls, shape, v in (("SumSegmentTree", "SumTree", "0"), ("MinSegmentTree", "MinTree", "INF")):
@@ -282,8 +288,8 @@ def more(P):
                             "self.operation": ("const", Fn(model=py_add if cls == "SumSegmentTree" else py_min,
                                                            name="operator.add" if cls == "SumSegmentTree" else "min"))},
                    raises={"AssertionError": "not (capacity > 0 and is_pow2(capacity))"}, raises_iff=True,
-                   ghost_exit=["use(reveal_wf(self))"],
-                   ensures=["WF(self)", "self.capacity == capacity", f"all_leaves(self, {v})"],
+                   ghost_exit=["use(reveal_wf(self))"], axioms=[T.leaf_axiom()],
+                   ensures=["WF(self)", "self.capacity == capacity", f"all_leaves(self, {v})", f"all_leaves_L(self, {v})"],
                    frame_fields=False, witness={"capacity": 4}, replay="c11:setitem")
 
 
